@@ -252,6 +252,32 @@ pub fn judge_stitched(target_idx: usize, name_idx: usize, scratch: &Scratch, n: 
             ro.describe()
         );
         v.extend(check_outside(&sandbox, &before, &at, "interrupted-version-with-dir-turned-symlink"));
+        // the same version restored by subtree: the turned path itself as the subtree (the link is
+        // the top of what is restored, the old entries below it follow), and a directory below it
+        for sub in [format!("/{l0}"), format!("/{l0}/sub")] {
+            let _ = std::fs::remove_dir_all(&dest);
+            let ros = run::do_restore(
+                &a2,
+                &dest,
+                &RestoreArgs {
+                    sel: Sel::Band(1),
+                    subtree: Some(&sub),
+                    exclude: &[],
+                    overwrite: false,
+                },
+                run::NOHOOK,
+                Flavor::Current,
+            );
+            n.fetch_add(1, AO::Relaxed);
+            let ats = format!("{at}; restored with only the subtree {sub}: {}", ros.describe().chars().take(200).collect::<String>());
+            v.extend(check_outside(&sandbox, &before, &ats, "interrupted-version-with-dir-turned-symlink-restored-by-subtree"));
+            if outside(&sandbox).ok().as_ref() != Some(&before) {
+                let _ = std::fs::remove_dir_all(&sandbox);
+                tree::materialize(&sentinels(), &sandbox);
+            }
+        }
+        let _ = std::fs::remove_dir_all(&dest);
+        let _ = run::do_restore(&a2, &dest, &RestoreArgs::band(1), run::NOHOOK, Flavor::Current);
         // and once more into the destination that restore has just produced, with overwrite
         let ro2 = run::do_restore(
             &a2,
